@@ -21,7 +21,7 @@ Proof.
   assert (Hw : forall k, In k (pk_indices0 (cleaned ys)) -> (0 < k < length (cleaned ys) - 1)%nat).
   { intros k Hk. unfold pk_indices0 in Hk. apply (where_idx_In 0) in Hk as [Hk1 Hk2]. rewrite pk_prod_length in Hk1.
     split; [|exact Hk1]. destruct k; [|lia]. rewrite pk_prod_nth in Hk2 by lia. apply lt0_R in Hk2. lra. }
-  unfold peak_indices_cleaned_p, pk_indices2, pk_indices1, M_peaks_pipeline.np_insert_end, np_insert0. split; [|split].
+  unfold peak_indices_cleaned_p, pk_indices2, pk_indices1, NpPeaks.np_insert_end, np_insert0. split; [|split].
   - cbn [app]. constructor.
     + intros j Hj. apply in_app_iff in Hj as [Hj|[<-|[]]]; [apply Hw in Hj; lia|lia].
     + apply asc_snoc; [apply (where_idx_ascending 0)|]. intros y Hy. apply Hw in Hy. lia.
